@@ -242,6 +242,21 @@ def explore(ctx, res, replay=None):
                   'LOOP 3 DO x := 1 END', 'x := 1 END', 'x := (1)', 'x := y - 0', 'PROGRAM f IN a DO l: x0 := a END GOTO l', 'STOP', 'x : = 1',
                   'PROGRAM f IN a DO x0 := RUN f WITH a END END x := RUN f WITH 1 END'):
             inputs.append(({'m': s}, 'm', 'fixed'))
+        # separators: every way of misplacing one ',' or ';' in argument lists, parameter lists and statement sequences
+        # whose element counts are otherwise right (so that only the grammar can object)
+        defs = 'PROGRAM one IN a DO x0 := a + 1 END\nPROGRAM two IN a, b OUT r DO r := a; LOOP b DO r := r + 1 END END\nPROGRAM none DO x0 := 7 END\n'
+        for call in ('x := RUN one WITH 3, END', 'x := RUN one WITH , 3 END', 'x := RUN one WITH 3 , , END', 'x := RUN two WITH 3, 4, END',
+                     'x := RUN two WITH 3, , 4 END', 'x := RUN two WITH , 3, 4 END', 'x := RUN two WITH 3 4 END', 'x := RUN none WITH , END',
+                     'x := RUN two WITH RUN one WITH 3, END, 4 END', 'x := RUN two WITH RUN one WITH 3 END, 4, END', 'x := RUN one WITH y + 1, END',
+                     'x := RUN one WITH 3 END', 'x := RUN two WITH 3, 4 END', 'x := RUN none WITH END', 'x := RUN two WITH RUN one WITH 3 END, 4 END'):
+            inputs.append(({'m': defs + call}, 'm', 'separators'))
+            inputs.append(({'m': defs + 'PROGRAM user IN q DO ' + call.replace('x :=', 'x0 :=') + ' END\ny := RUN user WITH 1 END'}, 'm', 'separators'))
+        for hdr in ('PROGRAM p IN a, DO x0 := a END', 'PROGRAM p IN , a DO x0 := a END', 'PROGRAM p IN a, , b DO x0 := a END', 'PROGRAM p IN a b DO x0 := a END',
+                    'PROGRAM p IN a, b, OUT r DO r := a END', 'PROGRAM p IN a OUT r, DO r := a END', 'PROGRAM p IN a OUT r s DO r := a END'):
+            inputs.append(({'m': hdr + '\nx := 1'}, 'm', 'separators'))
+        for seq in ('x := 1; y := 2;', 'x := 1;; y := 2', '; x := 1', 'x := 1 y := 2', 'LOOP x DO y := 1; END', 'LOOP x DO ; y := 1 END', 'LOOP x DO y := 1 END; ; z := 2',
+                    'WHILE x != 0 DO x := x - 1; END', 'l: ; x := 1', 'l: m: x := 1', 'x := 1; l:'):
+            inputs.append(({'m': seq}, 'm', 'separators'))
     ccases = [('c%d' % i, 'compile ' + vlib.files_fields(m, f)) for i, (f, m, _) in enumerate(inputs)]
     scases = [('s%d' % i, 'scan ' + vlib.files_fields(m, f)) for i, (f, m, _) in enumerate(inputs)]
     iout = ctx.run_impl(ccases, timeout_case=30)
@@ -276,7 +291,7 @@ def explore(ctx, res, replay=None):
         toks = []
         for t in parts[1:1 + n]:
             k, f, l, x = t.split(':')
-            toks.append((int(k), bytes.fromhex(x).decode('latin-1') if x != '-' else ''))
+            toks.append((int(k), vlib.unhex_s(x) if x != '-' else ''))
         nerrs = int(parts[1 + n].split('=')[1]) if len(parts) > 1 + n else 0
         # drop the prepended include of the hidden macro file: its DEFINE tokens are not user macros
         hidden = vlib.hexs('__standards__')
